@@ -140,3 +140,37 @@ Print Assumptions C17_no_zero_divisors.
 (* ---- source pins: the functions whose hand-written model carries the theorems above are still, textually (after
    ast normalisation), the functions the model was validated against; an edit breaks Bridge/Pins_C17.v ---- *)
 From KV Require Bridge.Pins_C17.
+
+(* ---- kernels regenerated from today's source: the index-based loops of polynomial.py, translated statement by
+   statement on every run (tools/translate_poly.py -> Gen/Poly.v; `while` loops with fuel, subscripts as nth_error,
+   None = raises / out of fuel), compute for ALL arguments what the structural model above computes (Bridge/Poly.v).
+   enc (c, [r1; ..; rn]) = [PInt c; PStr r1; ..; PStr rn] is the python monomial [c, 'v1', .., 'vn'] with the names
+   abstracted to their ranks; encp = map enc.  An edit of a comparison, a branch, an index increment of these loops
+   flows into Gen/Poly.v and breaks these theorems. ---- *)
+From KV Require Import Gen.Poly Bridge.Poly.
+Theorem C17_compare_kernel_is_todays_source : forall a b : option mono,
+  gen_compare (option_map enc a) (option_map enc b) = Some (pcompare a b).
+Proof. exact br_compare. Qed.
+Print Assumptions C17_compare_kernel_is_todays_source.
+(* the `while not (ai == al and bi == bl)` loop of Polynomial.__add__ from ai = bi = 0, res = []: fuel al + bl + 1 suffices *)
+Theorem C17_add_kernel_is_todays_source : forall (p q : poly) (fuel : nat), (length p + length q < fuel)%nat ->
+  gen_add_while fuel (encp p) (encp q) (length p) (length q) 0 0 [] = Some (length p, length q, encp (padd_loop p q)).
+Proof. exact br_add_loop. Qed.
+Print Assumptions C17_add_kernel_is_todays_source.
+(* the `while i < len(A) or j < len(B)` merge loop of Polynomial.__mul__ from i = j = 1, C = [A[0] * B[0]] *)
+Theorem C17_mul_merge_kernel_is_todays_source : forall (a b : mono) (fuel : nat),
+  (length (snd a) + length (snd b) < fuel)%nat ->
+  gen_mul_while fuel (enc a) (enc b) [PInt (fst a * fst b)] 1 1
+  = Some (enc (mono_mul a b), S (length (snd a)), S (length (snd b))).
+Proof. exact br_vmerge. Qed.
+Print Assumptions C17_mul_merge_kernel_is_todays_source.
+(* the whole methods __eq__ (int / Polynomial other), __bool__, __neg__, __add__, __mul__ (Polynomial / int other) *)
+Theorem C17_methods_are_todays_source : forall (p q : poly) (c : Z) (fuel : nat),
+  gen_eq_int (encp p) c = Some (peq_Z p c) /\ gen_eq (encp p) (encp q) = Some (peq p q) /\
+  gen_bool (encp p) = Some (pbool p) /\ gen_neg (encp p) = Some (encp (pneg p)) /\
+  ((length p + length q < fuel)%nat -> gen_add fuel (encp p) (encp q) = Some (encp (padd p q))) /\
+  ((length p + 1 < fuel)%nat -> gen_add_int fuel (encp p) c = Some (encp (padd_Z p c))) /\
+  ((mul_fuel p q <= fuel)%nat -> gen_mul fuel (encp p) (encp q) = Some (encp (pmul p q))) /\
+  ((mul_fuel p (P_of_Z c) <= fuel)%nat -> gen_mul_int fuel (encp p) c = Some (encp (pmul_Z p c))).
+Proof. exact br_methods. Qed.
+Print Assumptions C17_methods_are_todays_source.
